@@ -10,7 +10,8 @@ PROP = 'C07'
 LEAN_TARGETS = ['Props.C07', 'genlogic']      # genlogic: the definitions generated from the source on this run, executable
 REQUIRED_THEOREMS = ['Props.C07.modes_stack', 'Props.C07.ctx_restores', 'Props.C07.result_requires_grad_rule',
                      'Props.C07.no_grad_result_has_no_history', 'Props.C07.release_rule', 'Props.C07.float_only',
-                     'Props.C07.detach_is_plain', 'Props.C07.gradTensor_is_plain', 'Props.C07.fromData_is_leaf', 'Props.C07.copyTensor_same']
+                     'Props.C07.detach_is_plain', 'Props.C07.gradTensor_is_plain', 'Props.C07.fromData_is_leaf', 'Props.C07.copyTensor_same',
+                     'Props.C07.route_first_is_setter', 'Props.C07.route_refused', 'Props.C07.route_step']
 REQUIRED_THEOREMS += ['Props.C07.' + t for t in ['src_creation_rule_is_model', 'src_is_leaf_is_model', 'src_requires_grad_setter_is_model', 'src_retain_grad_is_model', 'src_ctx_new_is_model', 'src_ctx_enter_is_model', 'src_ctx_exit_is_model', 'src_no_inplace_operator', 'src_no_attribute_hook', 'src_parameter_created_by_tensor_init']]   # ties to the source read on this run
 RULE = ('event sequences: context objects created (possibly long before use, re-used, entered while another is active), '
         'well-nested enter/exit at depth <= 5 incl. exits by exception, leaves created with either flag and float/int dtype, ops on '
@@ -34,6 +35,14 @@ RULE = ('event sequences: context objects created (possibly long before use, re-
         'keyword, nn.Parameter(tensor) (= the copy constructor) over tensors in every state, the parameters and buffers of freshly constructed '
         'Linear / Neuron / Conv1d / Conv2d / BatchNorm1d / BatchNorm2d layers — each over float64 / float32 / int32 / int64 / bool (and complex / '
         'unsigned / 16-bit) data, inside and outside (nested) no_grad / retain_grads blocks; accept / reject and the flags compared with mkTensor. '
+        'Every ROUTE that switches flags — the requires_grad setter in a loop, Module.freeze() / unfreeze() on the owning module, on a parent / '
+        'grandparent, on a Sequential over the owners, on an OrderedDict container — over lists of nn.Parameter objects of every kind (float64 / float32 '
+        'with either flag, int32 / int64 / bool / other non-float dtypes, non-leaf parameters wrapped from computed tensors, copies of plain tensors) '
+        'in every position of the list, alone and mixed, repeated, inside and outside blocks: accept / reject, the flags of EVERY tensor afterwards '
+        '(a refused call leaves the parameters before the offending one switched) and later ops must be those of the setter applied one by one. '
+        'The flag rule with exactly ONE tracked operand in EVERY position (first ... last, sole element) for the list-valued ops concat / stack over '
+        'lists of length 1-5 and for every op of the catalogue with several operands (enumerated, not drawn), all / none tracked, inside and outside no_grad, '
+        'followed by a backward from the result. '
         'Non-trivial: nesting depth >= 2 with a pre-constructed context and at least one op inside no_grad.')
 EXHAUSTIVE = {'quick': False, 'thorough': False}
 ASSUMPTIONS = ['exit by exception is exercised by calling __exit__ with exception info (what the with-statement does)']
@@ -141,6 +150,8 @@ class Exec(tprog.Impl):
             x = self.ts[int(t[2])]
             self.ts.append(self.nn.Parameter(x) if t[3] == '-' else self.nn.Parameter(x, requires_grad=bool(int(t[3]))))
             return f't{len(self.ts) - 1}'
+        if t[1] == 'rgroute':           # t rgroute <route> <0|1> <ids> : one call that switches the flags of the listed parameters
+            return self.rgroute(t[2], bool(int(t[3])), [self.ts[k] for k in common.parse_ints(t[4])])
         if t[1] == 'lp':                # t lp <layer> <attribute> <shape> : a parameter / buffer of a freshly constructed layer
             sh = tuple(common.parse_ints(t[4]))
             nn = self.nn
@@ -154,6 +165,36 @@ class Exec(tprog.Impl):
             self.ts.append(x)
             return f't{len(self.ts) - 1}'
         return super().run(line)
+
+    def rgroute(self, route, v, ps):
+        """the listed parameters become the parameters() — in that order — of a module tree of the given form; freeze() / unfreeze() is
+        called on its root.  `setter` is the loop a user writes by hand."""
+        nn = self.nn
+        if route == 'setter':
+            for p in ps: p.requires_grad = v
+            return 'ok'
+        def owner(qs, sub=None):
+            m = nn.Module()
+            for j, q in enumerate(qs):
+                if j % 2: m.register_parameter(f'p{j}', q)
+                else: setattr(m, f'p{j}', q)
+            if sub is not None: m.child = sub
+            return m
+        if route == 'module': root = owner(ps)
+        elif route == 'parent':           # the root holds the first parameter itself, a child the others
+            root = owner(ps[:1], owner(ps[1:]))
+        elif route == 'grandparent':
+            root = owner([], owner(ps[:1], owner(ps[1:])))
+        elif route == 'sequential':       # one owner per parameter inside a Sequential, itself a member of a Sequential
+            root = nn.Sequential(nn.Sequential(*[owner([q]) for q in ps]))
+        elif route == 'seqdict':
+            from collections import OrderedDict
+            root = nn.Sequential(OrderedDict((f'k{len(ps) - j}', owner([q])) for j, q in enumerate(ps)))
+        else: raise KeyError(route)
+        listed = root.parameters()
+        if len(listed) != len(ps) or any(a is not b for a, b in zip(listed, ps)): return 'parameters()-is-not-the-registered-list'
+        root.unfreeze() if v else root.freeze()
+        return 'ok'
 
     def bop(self, kind, sp, a, b):
         import operator
@@ -225,6 +266,7 @@ def to_model(line):
     if len(t) > 2 and t[1] == 'bop': return bop_model(t[2], t[4], t[5])
     if len(t) > 2 and t[1] == 'mk':            # every constructor is the leaf-creation rule over its array
         return f"t leaf {t[3] if t[3] in ('f32', 'f64', 'i8', 'i32', 'i64') else 'i64'} {t[4]} {t[5]} {t[6]}"
+    if len(t) > 2 and t[1] == 'rgroute': return f't setrgs {t[3]} {t[4]}'      # every route is the setter applied to the listed tensors in turn
     if len(t) > 2 and t[1] == 'wrap': return f't copy {t[2]}'      # Parameter(tensor) is Tensor(tensor): every attribute of the source
     if len(t) > 2 and t[1] == 'lp':            # layers build their parameters with requires_grad=True, their buffers without
         sh = common.parse_ints(t[4])
@@ -247,6 +289,7 @@ def gen_seq(rng, tier):
                      # their source, which the model (one node per tensor) does not express — flags only, never differentiated
     hidden = set()   # tensors an operator statement makes on its way (nodes of the model only): never named by a later line
     vis = lambda: [k for k in range(len(P.tshape)) if k not in hidden]
+    params = []      # tensors that are nn.Parameter objects (what a module registers)
 
     def q():
         nt = len(P.tshape)
@@ -285,6 +328,7 @@ def gen_seq(rng, tier):
             if not (rg and dt != 'f64' and not any(k == 'ng' for _, k in active)):
                 tid = P.add_leaf(sh, data, rg, dt)
                 if dt != 'f64': ints.add(tid)
+                if lines[-1].startswith('t mk Parameter'): params.append(tid)
         elif r < 0.28:
             # a tensor made from a tensor without an op — whatever state the source is in by now
             src = rng.pick(vis())
@@ -307,6 +351,7 @@ def gen_seq(rng, tier):
             tid = P.add_leaf(P.tshape[src], [], False)
             if src in ints: ints.add(tid)
             if d in ('copy', 'wrap'): tainted.add(tid)
+            if d == 'wrap': params.append(tid)
         elif r < 0.36:
             # one binary operator in one spelling (infix / reflected / augmented statement / function / special method) over operands
             # in whatever state they are by now: an untracked accumulator on the left of a tracked operand included
@@ -339,6 +384,11 @@ def gen_seq(rng, tier):
                 lines.append(' '.join(['t op', nd['name'], show_ints(nd['ins'])] + [str(a) for a in nd['args']]))
                 if any(k == 'ng' for _, k in active): stats['op_in_ng'] = True
                 if any(i in tainted for i in nd['ins']): tainted.update(nd['outs'])
+        elif r < 0.535 and params:
+            # freeze() / unfreeze() of a module tree over some of the parameters made so far (whatever their dtype / state), or the setter loop
+            ids = rng.sample(params, rng.randint(1, min(3, len(params))))
+            lines.append(f't rgroute {rng.pick(ROUTES)} {rng.randint(0, 1)} {show_ints(ids)}')
+            stats['routes'] = stats.get('routes', 0) + 1
         elif r < 0.57:
             lines.append(f't setrg {rng.pick(vis())} {rng.randint(0, 1)}')
         elif r < 0.60:
@@ -413,7 +463,7 @@ def gen_release_seq(rng):
     return lines, {'maxdepth': 1, 'pre': True, 'op_in_ng': False}
 
 
-def op_flag_case(rng, op):
+def op_flag_case(rng, op, hot=None):
     """the flag rule for EVERY op of the catalogue, arguments from the per-op generators (boundary values included): operands
     with random requires_grad flags, the op inside or outside no_grad; flags of all results are compared with the model"""
     import gen_ops
@@ -424,6 +474,10 @@ def op_flag_case(rng, op):
         leaves = [(leaves[0][0], [abs(v) + 0.5 for v in leaves[0][1]]) + tuple(leaves[0][2:])]
     zero_bias = op in ('linear', 'conv1d', 'conv2d') and len(leaves) == 3 and rng.chance(.5)
     leaves = [tuple(list(lf[:2]) + [rng.chance(.6) if len(lf) < 4 or lf[3] != 'i64' else False] + list(lf[3:])) for lf in leaves]
+    if hot is not None:  # exactly ONE tracked operand, at position `hot` (enumerated by the caller)
+        zero_bias = False
+        if hot >= len(leaves) or (len(leaves[hot]) > 3 and leaves[hot][3] == 'i64'): raise IndexError(hot)
+        leaves = [tuple(list(lf[:2]) + [i == hot] + list(lf[3:])) for i, lf in enumerate(leaves)]
     if zero_bias:        # a zero-initialised bias as the ONLY operand that requires grad (frozen weight, plain input)
         leaves = [tuple(list(leaves[0][:2]) + [False] + list(leaves[0][3:])), tuple(list(leaves[1][:2]) + [False] + list(leaves[1][3:])),
                   (leaves[2][0], [0.0] * len(leaves[2][1]), True) + tuple(leaves[2][3:])]
@@ -438,7 +492,9 @@ def op_flag_case(rng, op):
     lines += [f't flags {k}' for k in range(nl + nout)] + ['t modes']
     if nout:
         lines.append(f't op mul {nl},{nl}'); lines.append(f't flags {nl + nout}')      # the flag travels on
-    return lines, {'maxdepth': 1, 'pre': False, 'op_in_ng': ng}
+    st = {'maxdepth': 1, 'pre': False, 'op_in_ng': ng}
+    if hot is not None and nl > 1: st['onehot'] = f'{op}: only operand {hot} of {nl} tracked'
+    return lines, st
 
 
 STATES = ['fresh', 'after backward', 'intermediate marked with retain_grad, after backward', 'after backward under retain_grads', 'after two backward calls',
@@ -639,6 +695,77 @@ def layer_case(rng, layout):
     return lines, {'maxdepth': len(layout), 'pre': False, 'op_in_ng': 'ng' in layout, 'ctor_route': f"layer constructors{' inside ' + '>'.join(layout) if layout else ''}"}
 
 
+ROUTES = ['setter', 'module', 'parent', 'grandparent', 'sequential', 'seqdict']
+PARAM_KINDS = ['f64 on', 'f64 off', 'f32 on', 'f32 off', 'i32', 'i64', 'bool', 'other non-float', 'non-leaf (wrapped computed tensor)',
+               'copy of a tracked plain tensor', 'copy of an untracked plain tensor', 'wrapped computed-under-no_grad tensor']
+
+
+def _param(rng, lines, nt, nctx, kind):
+    """one nn.Parameter of the given kind; returns (id of the parameter, next tensor id, next context id)"""
+    sh = rng.pick([(2,), (1, 2), ()])
+    n = int(np.prod(sh)) if sh else 1
+    k = PARAM_KINDS.index(kind)
+    if k < 8:
+        dt = ['f64', 'f64', 'f32', 'f32', 'i32', 'i64', 'bool', rng.pick(['u8', 'i16', 'c64', 'c128'])][k]
+        data = [float(rng.randint(0, 3)) for _ in range(n)]
+        lines.append(f"t mk Parameter-kw {dt} {show_ints(sh)} {int(k in (0, 2))} {show_floats(data)}")
+        return nt, nt + 1, nctx
+    lines.append(gen_dag.leaf_line(sh, [float(rng.randint(1, 3)) for _ in range(n)], k != 10)); nt += 1
+    if k == 8: lines.append(f't op mul {nt - 1},{nt - 1}'); nt += 1
+    if k == 11:
+        lines.extend(['t ctx new ng', f't ctx enter {nctx}', f't op mul {nt - 1},{nt - 1}', f't ctx exit {nctx}']); nt += 1; nctx += 1
+    lines.append(f't wrap {nt - 1} {rng.pick(["-", "0", "1"])}')
+    return nt, nt + 1, nctx
+
+
+def route_case(rng, route, layout, tier):
+    """ONE route over parameters of EVERY kind: each kind alone under freeze and under unfreeze (a fresh parameter for each call), then
+    mixed lists with the offending kinds in drawn positions, calls repeated; the flags of every tensor after every call, ops on the
+    floating-point ones afterwards"""
+    lines, nt, nctx = [], 0, 0
+    pool = []
+    def Q(ids=None):
+        return [f't flags {k}' for k in (ids if ids is not None else range(nt))]
+    nctx = _enter(lines, layout, nctx)
+    for kind in PARAM_KINDS:
+        for v in (1, 0):
+            pid, nt, nctx = _param(rng, lines, nt, nctx, kind)
+            lines += Q([pid]) + [f't rgroute {route} {v} {pid}'] + Q([pid])
+            if rng.chance(.3): lines += [f't rgroute {route} {1 - v} {pid}'] + Q([pid])       # ... and back
+            pool.append((pid, kind))
+    # mixed lists: a realistic module holds float tables next to integer index parameters
+    for _ in range(3 if tier == 'quick' else 12):
+        ids = []
+        for kind in rng.sample(PARAM_KINDS[:4], rng.randint(1, 3)) + rng.sample(PARAM_KINDS[4:], rng.randint(0, 2)):
+            pid, nt, nctx = _param(rng, lines, nt, nctx, kind); ids.append(pid)
+        ids = rng.sample(ids, len(ids))          # the offending one first / in the middle / last
+        for v in rng.sample([0, 1, 1, 0], rng.randint(1, 3)):
+            lines += [f't rgroute {rng.pick([route, route, "setter"])} {v} {show_ints(ids)}'] + Q(ids)
+        pool += [(i, None) for i in ids]
+    _exit(lines, layout, len(layout), rng)           # (the blocks of the layout are the contexts 0 .. len(layout) - 1)
+    lines.append('t modes')
+    lines += Q()
+    for pid, kind in rng.sample(pool, min(len(pool), 6)):
+        lines += [f't op mul {pid},{pid}', f't flags {nt}']; nt += 1
+    return lines, {'maxdepth': len(layout), 'pre': False, 'op_in_ng': False, 'route': f"{route}{' inside ' + '>'.join(layout) if layout else ''}"}
+
+
+def listop_case(rng, op, n, mask, ng):
+    """concat / stack over a list of n operands whose tracked positions are given by `mask`"""
+    base = rng.pick([(2,), (2, 3), (1, 2)]) if op == 'concat' else rng.pick([(), (2,), (2, 2)])
+    ax = rng.randrange(-len(base), len(base)) if op == 'concat' else rng.randrange(-(len(base) + 1), len(base) + 1)
+    shapes = [tuple(rng.randint(1, 3) if op == 'concat' and i == ax % len(base) else d for i, d in enumerate(base)) for _ in range(n)]
+    lines = [gen_dag.leaf_line(sh, gen_dag.rand_data(rng, sh), bool(m)) for sh, m in zip(shapes, mask)]
+    if ng: lines += ['t ctx new ng', 't ctx enter 0']
+    lines.append(f't op {op} {show_ints(range(n))} {ax}')
+    lines.append(f't flags {n}')
+    if ng: lines += ['t ctx exit 0']
+    out = tuple(int(v) for v in (np.concatenate if op == 'concat' else np.stack)([np.zeros(sh) for sh in shapes], ax).shape)
+    lines += [f't flags {k}' for k in range(n)] + [f't op mul {n},{n}', f't flags {n + 1}', 't modes',
+              f"t bw {n} {show_ints(out)} {show_floats(gen_dag.rand_data(rng, out))}"] + [f't grad {k}' for k in range(n)] + [f't flags {k}' for k in range(n + 1)]
+    return lines, {'maxdepth': 1, 'pre': False, 'op_in_ng': ng, 'listop': f"{op} n={n} tracked={''.join(str(int(m)) for m in mask)}"}
+
+
 LOSSES = ['mse_loss', 'nll_loss', 'binary_cross_entropy', 'binary_cross_entropy_with_logits', 'cross_entropy']
 
 
@@ -689,6 +816,25 @@ def cases(rng, tier):
             except Exception:
                 continue
             out.append({'lines': lines, 'stats': stats, 'desc': ' ; '.join(l for l in lines if not l.startswith(('t flags', 't modes', 't grad')))[:900]})
+        for hot in range(4):            # ... and with exactly one tracked operand in every position
+            for _ in range(1 if tier == 'quick' else 5):
+                try:
+                    lines, stats = op_flag_case(rng, op, hot)
+                except Exception:
+                    continue
+                out.append({'lines': lines, 'stats': stats, 'desc': ' ; '.join(l for l in lines if not l.startswith(('t flags', 't modes', 't grad')))[:900]})
+    for op in ('concat', 'stack'):
+        for n in range(1, 6):
+            masks = [[int(i == k) for i in range(n)] for k in range(n)] + [[0] * n, [1] * n]
+            if tier != 'quick': masks = [[(b >> i) & 1 for i in range(n)] for b in range(2 ** n)]
+            for mask in masks:
+                for ng in ((False, True) if tier != 'quick' or sum(mask) == 1 and (mask[-1] or rng.chance(.3)) else (False,)):
+                    lines, stats = listop_case(rng, op, n, mask, ng)
+                    out.append({'lines': lines, 'stats': stats, 'desc': 'list op: ' + ' ; '.join(l for l in lines if not l.startswith(('t flags', 't modes', 't grad ')))[:900]})
+    for route in ROUTES:
+        for layout in (CTX_LAYOUTS if tier != 'quick' else [(), rng.pick(CTX_LAYOUTS[1:])]):
+            lines, stats = route_case(rng, route, layout, tier)
+            out.append({'lines': lines, 'stats': stats, 'desc': 'flag route: ' + ' ; '.join(l for l in lines if not l.startswith(('t flags', 't modes', 't grad ')))[:900]})
     for _ in range(150 if tier == 'quick' else 5000):
         lines, stats = gen_seq(rng, tier)
         out.append({'lines': lines, 'stats': stats, 'desc': ' ; '.join(l for l in lines if not l.startswith(('t flags', 't modes', 't grad')))[:900]})
@@ -833,9 +979,19 @@ def distribution(cases):
         if st.get('ctor_route'):
             k = f"constructor route: {st['ctor_route']}"
             d[k] = d.get(k, 0) + 1
+        if st.get('route'):
+            k = f"flag-switching route over parameters of every kind: {st['route']}"
+            d[k] = d.get(k, 0) + 1
+        if st.get('listop'):
+            k = f"list op, tracked positions enumerated: {st['listop']}{' (inside no_grad)' if st['op_in_ng'] else ''}"
+            d[k] = d.get(k, 0) + 1
+        if st.get('onehot'):
+            k = f"exactly one tracked operand: {st['onehot']}"
+            d[k] = d.get(k, 0) + 1
         if st.get('mode'):        # nn op under one mode / option combination
             k = f"nn mode: {st['mode']}{' (inside no_grad)' if st['op_in_ng'] else ''}"
             d[k] = d.get(k, 0) + 1
+    d['flag-switching route calls (freeze / unfreeze on an owner tree, setter loop) inside random event sequences'] = sum(c['stats'].get('routes', 0) for c in cases if c.get('kind') != 'logic')
     d['tensor-from-tensor derivations inside random event sequences'] = sum(c['stats'].get('derived', 0) for c in cases)
     d['operator statements (drawn form x spelling) inside random event sequences'] = sum(c['stats'].get('bop', 0) for c in cases if c.get('kind') != 'logic')
     d['constructor routes other than Tensor(array) inside random event sequences'] = sum(c['stats'].get('ctor', 0) for c in cases if c.get('kind') != 'logic')
@@ -856,6 +1012,7 @@ def oracle(c):
     isfloat = {}
     bad_bw = set(c.get('bad_bw') or [])
     plain = 'rg=0 leaf=1 fn=0 grad=0 children=0'
+    nonleaf = set()   # tensors that require grad and carry a backward function (results of ops on tracked operands, and their copies)
     deps = {}         # result of a binary operator -> the leaves it was tracked through when it was made
     owed = {}         # leaves a successful backward call has to leave a gradient on -> the root of that call
     group = {}        # names of ONE object (an operator statement that hands back its operand): they share every attribute
@@ -864,14 +1021,16 @@ def oracle(c):
         t = l.split(' ')
         def fail(cls, what):
             return {'key': {'cls': cls}, 'case': {'lines': c['lines'][:li + 1], 'fresh': bool(c.get('fresh')), 'bad_bw': sorted(bad_bw)}, 'what': what}
-        def new(rg, fl=True, like=None, dep=None):
+        def new(rg, fl=True, like=None, dep=None, op=False):
             nonlocal ntens
+            if op and rg: nonleaf.add(ntens)
             rg_of[ntens] = rg
             isfloat[ntens] = fl
             deps[ntens] = {ntens} if dep is None and like is None else (dep or set())      # a leaf stands for itself; nothing is claimed about copies
             if rg: ever.add(ntens)
             if like is not None:
                 if like in ever: ever.add(ntens)
+                if like in nonleaf: nonleaf.add(ntens)
                 assigned.add(ntens)
             ntens += 1
             return ntens - 1
@@ -894,7 +1053,7 @@ def oracle(c):
             ins = [int(t[4])] + ([int(t[5][1:])] if t[5][0] == 't' else [])
             want = grad and any(rg_of.get(i, False) for i in ins)
             for _ in range(bop_hidden(t[2], t[5][0] == 't')): new(False, dep=set())
-            k = new(want, dep=set().union(*[deps.get(i, set()) for i in ins if rg_of.get(i, False)]) if want else set())
+            k = new(want, dep=set().union(*[deps.get(i, set()) for i in ins if rg_of.get(i, False)]) if want else set(), op=True)
             if ' is-operand-t' in o:          # the result IS the operand (updated in place): one object under two names, and the rule speaks about it as the result
                 src = int(o.split(' is-operand-t')[1])
                 g = names(src) + [k]
@@ -902,6 +1061,7 @@ def oracle(c):
                     group[j] = g; rg_of[j] = want; deps[j] = deps[k]; isfloat[j] = isfloat.get(src, True)
                 if any(j in ever for j in g): ever.update(g)
                 if any(j in assigned for j in g): assigned.update(g)
+                if any(j in nonleaf for j in g): nonleaf.update(g)
         elif t[1] == 'ctx' and t[2] == 'enter':
             kind = None
             # kind is known from the creation line
@@ -930,11 +1090,11 @@ def oracle(c):
             want = grad and any(rg_of.get(i, False) for i in ins)
             dep = set().union(*[deps.get(i, set()) for i in ins if rg_of.get(i, False)]) if want else set()
             for _ in o.split(','):
-                new(want, dep=dep)
+                new(want, dep=dep, op=True)
         elif t[1] == 'loss' and o != 'rejected':
             want = grad and (rg_of.get(int(t[4]), False) or rg_of.get(int(t[5]), False))
-            new(want, dep=set())
-            if t[3] != 'none': new(want, dep=set())          # the reduction is a second op on the unreduced loss
+            new(want, dep=set(), op=True)
+            if t[3] != 'none': new(want, dep=set(), op=True)          # the reduction is a second op on the unreduced loss
         elif t[1] == 'detach':
             if o == 'rejected': return fail('detach-raised', f'detach() of t{t[2]} raised')
             new(False, isfloat.get(int(t[2]), True))
@@ -960,11 +1120,25 @@ def oracle(c):
             if o == 'rejected': return fail('dropout-raised', 'Dropout forward raised')
             src = int(t[2])
             if int(t[4]):
-                new(False); new(grad and rg_of.get(src, False), dep=set())       # mask, product
+                new(False); new(grad and rg_of.get(src, False), dep=set(), op=True)       # mask, product
             else:
                 new(rg_of.get(src, False), like=src)                  # eval mode hands back its operand
         elif t[1] == 'zero' and o == 'ok':
             assigned.update(names(int(t[2])))
+        elif t[1] == 'rgroute':
+            v, ids = bool(int(t[3])), common.parse_ints(t[4])
+            if o not in ('ok', 'rejected'): return fail('route-params', f'{l}: {o}')
+            # the rules of the setter, tensor by tensor: leaves only, and only floating-point tensors can be switched on
+            bad = next((j for j in ids if j in nonleaf or (v and not isfloat.get(j, True))), None)
+            why = lambda j: 'is not a leaf' if j in nonleaf else 'is not floating point'
+            if o == 'ok' and bad is not None:
+                return fail('route-accepts', f'{l}: switching requires_grad to {v} through the route `{t[2]}` was accepted although t{bad} {why(bad)} (the requires_grad setter refuses it)')
+            if o == 'rejected' and bad is None:
+                return fail('route-raised', f'{l}: raised although every listed tensor is a leaf' + (' of floating-point dtype' if v else ''))
+            for j in (ids if bad is None else ids[:ids.index(bad)]):
+                for j2 in names(j):
+                    rg_of[j2] = v
+                    if v: ever.add(j2)
         elif t[1] == 'setrg' and o == 'ok':
             for j in names(int(t[2])):
                 rg_of[j] = bool(int(t[3]))
